@@ -237,7 +237,7 @@ def run(pid, tier, seed, replay=None):
            'traces_validated_against_impl': stats['events'], 'details': notes}
     code = core.finish(pid, violations, set(), wd)
     core.write_evidence(pid, tier, seed, 'fault_enumeration', cov, time.time() - t0, len(violations),
-                        ['13 header types + IpHeaders (IP header with extension headers, multi-part reader/writer); the typed ICMPv4 header is exercised by the C10 check',
+                        ['14 header types (incl. the typed ICMPv4 header) + IpHeaders, Ipv4Extensions, Ipv6Extensions (multi-part readers / writers), the Ipv6Header::skip_* helpers and the LimitedReader machine driven directly',
                          'fault model: the sink/source delivers exactly k bytes and then returns an error; short writes/reads before the fault are not modelled separately'])
     # second pipeline: the packet builder as a multi-part writer (failing io::Write at every byte, too-short slices of many lengths)
     from . import simple
